@@ -27,7 +27,7 @@ func init() {
 		ID:    "C14",
 		Level: "model_checking",
 		Rule: "explicit-state: all 65536 register states (each reached on the implementation through New().Write of its unique 2-byte prefix) x all 256 next bytes, compared with a bitwise CRC-16/ARC; " +
-			"Reset and residue from every state; all byte strings of length<=3 (quick: <=2 plus stride on 3) under every write partition; long strings under every 1- and 2-cut partition. " +
+			"Reset and residue from every state; all byte strings of length<=3 (quick: <=2 plus stride on 3) under every write partition; long strings under every 1- and 2-cut partition; single Write / Checksum calls of sizes 2^k-1, 2^k, 2^k+1 for k=5..20. " +
 			"distinct = distinct (state,byte)->state' transitions observed on the implementation",
 		Assumptions: []string{"reference is the textbook bitwise reflected CRC-16 (poly 0xA001, init 0, no final xor)"},
 		Run:         runC14,
@@ -219,6 +219,52 @@ func runC14(w *vx.W) {
 			if h.Sum16() != wantS {
 				bad("cut2", short, []int{a, b}, wantS, h.Sum16())
 			}
+		}
+	}
+	// 4. large single writes (block-wise implementations switch code paths at some size): sizes around powers of two
+	// up to 1 MiB as one Write / one Checksum call, and split at one position
+	var sizes []int
+	for sh := 5; sh <= 20; sh++ {
+		for _, d := range []int{-1, 0, 1} {
+			sizes = append(sizes, 1<<uint(sh)+d)
+		}
+	}
+	sizes = append(sizes, 70000, 200000, 3*65536+17)
+	big := make([]byte, 1<<20+1)
+	for i := range big {
+		x = x*1664525 + 1013904223
+		big[i] = byte(x >> 23)
+	}
+	for si, n := range sizes {
+		if !w.Mine(int64(si)) {
+			continue
+		}
+		data := big[:n]
+		want := fitmodel.CRCFast(0, data)
+		if n <= 70000 && fitmodel.CRC(data) != want {
+			w.HarnessError("reference table CRC disagrees with the bitwise reference")
+		}
+		h := dyncrc16.New()
+		h.Write(data)
+		w.Eval(3)
+		w.Fam("large-single-writes", 1)
+		rep := c14Replay{Kind: "large", Data: fmt.Sprintf("(%d pseudo-random bytes, seed %d)", n, w.Seed), Expect: want}
+		if h.Sum16() != want {
+			w.Violation("crc/large-write", fmt.Sprintf("single Write of %d bytes: reference %#04x implementation %#04x", n, want, h.Sum16()), rep)
+		}
+		if c := dyncrc16.Checksum(data); c != want {
+			w.Violation("crc/large-checksum", fmt.Sprintf("Checksum of %d bytes: reference %#04x implementation %#04x", n, want, c), rep)
+		}
+		h2 := dyncrc16.New()
+		h2.Write(data[:n/3])
+		h2.Write(data[n/3:])
+		if h2.Sum16() != want {
+			w.Violation("crc/large-split", fmt.Sprintf("%d bytes written as %d+%d: reference %#04x implementation %#04x", n, n/3, n-n/3, want, h2.Sum16()), rep)
+		}
+		// residue over the large buffer
+		res := append(append([]byte{}, data...), byte(want), byte(want>>8))
+		if c := dyncrc16.Checksum(res); c != 0 {
+			w.Violation("crc/large-residue", fmt.Sprintf("residue of %d bytes + sum is %#04x", n, c), rep)
 		}
 	}
 	// two hashes are independent (no hidden shared state)
